@@ -280,6 +280,15 @@ def call(pe, name, args, kwargs, node):
         for k, a in v.attrs.items():
           o.attrs[k] = dc(a, memo) if name == "copy.deepcopy" else a
         return o
+      if isinstance(v, Mock) and v.attrs.get("__copyable__"):
+        # stand-ins are shared by default; a rule opts in to copy semantics
+        if id(v) in memo:
+          return memo[id(v)]
+        m = Mock(v.name + " (copy)", {})
+        memo[id(v)] = m
+        for k, a in v.attrs.items():
+          m.attrs[k] = dc(a, memo) if name == "copy.deepcopy" else a
+        return m
       if name == "copy.copy":
         if isinstance(v, list):
           return list(v)
@@ -392,6 +401,8 @@ def call(pe, name, args, kwargs, node):
       if fn is not None:
         return pe.call_func(Func(fn, owner.module, [], owner.name +
                                  ".__str__", v, owner), [], {})
+    if isinstance(v, Mock) and callable(v.attrs.get("__str__")):
+      return v.attrs["__str__"](pe, [], {})
     return py_repr(pe, v)
   if name == "abs":
     return unary(pe, "abs", args[0])
